@@ -5,6 +5,7 @@ import (
 	"go/ast"
 	"go/constant"
 	"go/token"
+	"go/types"
 	"math/big"
 	"sort"
 	"strings"
@@ -274,16 +275,45 @@ var intRange = map[string][2]string{
 func bigOf(s string) *big.Int { b, _ := new(big.Int).SetString(s, 10); return b }
 
 func rncNarrowing(w *World) {
+	rncNarrowingIn(w, "options", []string{"(*interpreter).scalarFieldValue", "(*interpreter).scalarFieldValueFromProto", "(*interpreter).enumFieldValue", "(*interpreter).enumFieldValueFromProto"}, 10)
+}
+
+// rncFDP: the experimental descriptor generator (C27) must not narrow 64-bit values either.
+func rncFDP(w *World) {
+	p := w.pkg("experimental/fdp")
+	if p == nil {
+		return
+	}
+	var names []string
+	for _, b := range allFuncBodies(p) {
+		if b.Lit == nil {
+			n := b.Obj.Name()
+			if sig := b.Obj.Type().(*types.Signature); sig.Recv() != nil {
+				t := sig.Recv().Type()
+				ptr := ""
+				if pt, ok := t.(*types.Pointer); ok {
+					t, ptr = pt.Elem(), "*"
+				}
+				if nt, ok := t.(*types.Named); ok {
+					n = "(" + ptr + nt.Obj().Name() + ")." + n
+				}
+			}
+			names = append(names, n)
+		}
+	}
+	rncNarrowingIn(w, "experimental/fdp", names, 0)
+}
+
+func rncNarrowingIn(w *World, rel string, scope []string, floor int) {
 	w.rule("RNC")
-	p := w.pkg("options")
+	p := w.pkg(rel)
 	if p == nil {
 		return
 	}
 	info := p.TypesInfo
-	scope := []string{"(*interpreter).scalarFieldValue", "(*interpreter).scalarFieldValueFromProto", "(*interpreter).enumFieldValue", "(*interpreter).enumFieldValueFromProto"}
 	nConv := 0
 	for _, name := range scope {
-		fr := w.fn("options", name)
+		fr := w.fnOpt(rel, name)
 		if fr == nil {
 			continue
 		}
@@ -409,7 +439,10 @@ func rncNarrowing(w *World) {
 			})
 		})
 	}
-	w.floor("integer narrowing/sign conversions in option value coercion", nConv, 10)
+	w.floor("integer narrowing/sign conversions in "+rel, nConv, floor)
+	if nConv == 0 {
+		w.ok("narrowing|none|"+rel, token.NoPos, "no integer narrowing or sign-changing conversion between 32/64-bit integer types in the analysed functions of "+rel)
+	}
 }
 
 // ---- RCF: case folding is a reviewed decision (C20, C04, C14) -----------------------------------
